@@ -83,7 +83,9 @@ def alphas_for(x, w):
     for i in order:
         acc += ww[i] / s
         cs.append(acc)
-    al = {F(0), F(1)}
+    # 0 and 1 themselves and their close neighbours: "alpha is 0" is an exact statement, a tiny positive alpha
+    # must already skip every zero-weight minimum (and 1 - tiny must not yet reach a zero-weight maximum)
+    al = {F(0), F(1), F(1, 10 ** 9), F(1, 10 ** 15), 1 - F(1, 10 ** 9)}
     # weights=None makes the real code compute k/n in floats: an exact boundary alpha = k/n is then a
     # rounding question (not modelled) unless n is a power of two
     exact = w is not None or (len(x) & (len(x) - 1)) == 0
